@@ -199,6 +199,54 @@ w_unit!(c02w_extended_header_id1, w_extended_header, 1);
 w_unit!(c02w_extended_header_id3, w_extended_header, 3);
 w_unit!(c02w_extended_header_id4, w_extended_header, 4);
 
+/// Ids that contain multi-byte UTF-8 characters (the 4-byte fields count BYTES): storage header ECU id "Z\u{fc}1"
+/// (4 bytes), standard header ECU id "\u{e9}" (2 bytes + 2 NUL), application id "\u{e4}b" (3 + 1), context id
+/// "\u{20ac}" (3 + 1). Times, counter, MSIN and NOAR symbolic.
+#[kani::proof]
+#[kani::unwind(20)]
+fn c02w_ids_multibyte_utf8() {
+    let secs: u32 = kani::any();
+    let micros: u32 = kani::any();
+    let sh = StorageHeader { timestamp: DltTimeStamp { seconds: secs, microseconds: micros }, ecu_id: String::from("Z\u{fc}1") };
+    let got = sh.as_bytes();
+    let mut want = Buf::<16>::new();
+    want.put_bytes(&[0x44, 0x4C, 0x54, 0x01], 4);
+    want.put_u32(false, secs);
+    want.put_u32(false, micros);
+    want.put_bytes(&[b'Z', 0xC3, 0xBC, b'1'], 4);
+    assert!(same(&got, want.slice()), "storage header with a multi-byte ECU id differs from the reference layout");
+    std::mem::forget(got);
+    std::mem::forget(sh);
+
+    let mcnt: u8 = kani::any();
+    let h = StandardHeader { version: 1, endianness: Endianness::Little, has_extended_header: true, message_counter: mcnt,
+                             ecu_id: Some(String::from("\u{e9}")), session_id: None, timestamp: None, payload_length: 0 };
+    let got = h.as_bytes();
+    let mut want = Buf::<16>::new();
+    want.put(0x25); // UEH | WEID | version 1
+    want.put(mcnt);
+    want.put_u16(true, 4 + 4 + 10);
+    want.put_bytes(&[0xC3, 0xA9, 0, 0], 4);
+    assert!(same(&got, want.slice()), "standard header with a multi-byte ECU id differs from the reference layout");
+    std::mem::forget(got);
+    std::mem::forget(h);
+
+    let msin: u8 = kani::any();
+    let noar: u8 = kani::any();
+    let eh = ExtendedHeader { verbose: msin & 1 == 1, argument_count: noar, message_type: crate::c14::ref_message_type(msin),
+                              application_id: String::from("\u{e4}b"), context_id: String::from("\u{20ac}") };
+    let got = eh.as_bytes();
+    let mut want = Buf::<10>::new();
+    want.put(msin);
+    want.put(noar);
+    want.put_bytes(&[0xC3, 0xA4, b'b', 0], 4);
+    want.put_bytes(&[0xE2, 0x82, 0xAC, 0], 4);
+    assert!(same(&got, want.slice()), "extended header with multi-byte ids differs from the reference layout");
+    kani::cover!(true);
+    std::mem::forget(got);
+    std::mem::forget(eh);
+}
+
 /// PayloadContent::as_bytes for the non-argument payload kinds, both orders.
 #[kani::proof]
 #[kani::unwind(12)]
